@@ -15,9 +15,9 @@
 char **strv_concat(char *const *a, const char *const *b)
 {
   if (!gc.cfg_nofault && nondet_bool()) {
-    g.err = ENOMEM;
-    if (g.faults == 0) g.first_errno = ENOMEM;
-    if (g.faults < 1000) g.faults++;
+    g.e.err = ENOMEM;
+    if (g.e.faults == 0) g.e.first_errno = ENOMEM;
+    if (g.e.faults < 1000) g.e.faults++;
     return NULL;
   }
   char **r = (calloc)(1, sizeof(char *));
@@ -57,7 +57,7 @@ void harness(void)
 #endif
   /* no descriptor at or above the soft limit is open (the kernel hands out none) */
   gc.cfg_rlim_cur = nondet_ulong();
-  __CPROVER_assume(gc.cfg_rlim_cur >= 1 && gc.cfg_rlim_cur <= 1048577UL && (g.open & ~(gc.cfg_rlim_cur >= 32 ? 0xffffffffu : ((1u << gc.cfg_rlim_cur) - 1u))) == 0);
+  __CPROVER_assume(gc.cfg_rlim_cur >= 1 && gc.cfg_rlim_cur <= 1048577UL && (g.fds.open & ~(gc.cfg_rlim_cur >= 32 ? 0xffffffffu : ((1u << gc.cfg_rlim_cur) - 1u))) == 0);
 
   /* argv: NULL (fork mode) or { a0, NULL } with a0 any 3-character string */
   static char a0[4];
@@ -89,7 +89,7 @@ void harness(void)
   /* known finding D11: the parent's descriptors 0..2 are not all open (so that
      pipes the library creates land on 0..2), or a child handle is numbered 0..2
      other than "stream i on descriptor i" */
-  __CPROVER_assume((g.open & 7u) == 7u);
+  __CPROVER_assume((g.fds.open & 7u) == 7u);
   __CPROVER_assume((options.handle.in > 2 || options.handle.in == 0) &&
                    (options.handle.out > 2 || options.handle.out == 1) &&
                    (options.handle.err > 2 || options.handle.err == 2) && options.handle.exit > 2);
@@ -97,9 +97,9 @@ void harness(void)
 
   /* the launch request, as the properties state it */
   gc.cfg_wd = options.working_directory;
-  gc.want_obj[0] = g.obj[options.handle.in];
-  gc.want_obj[1] = g.obj[options.handle.out];
-  gc.want_obj[2] = g.obj[options.handle.err];
+  gc.want_obj[0] = g.fds.obj[options.handle.in];
+  gc.want_obj[1] = g.fds.obj[options.handle.out];
+  gc.want_obj[2] = g.fds.obj[options.handle.err];
   gc.want_exit_fd = options.handle.exit;
   gc.want_argv = (char *const *) argv;
   gc.want_argv0 = argv ? argv[0] : NULL;
